@@ -4,6 +4,7 @@ spec/Republish.tla across publisher epochs for HTTP-TS / HLS / RTSP consumers)."
 from props.lifecycle_common import run_lifecycle
 from props.fanout_common import run_fanout
 from props.republish_common import run_republish
+from props.c10 import run_cleanup
 
 
 def run(ctx):
@@ -12,9 +13,12 @@ def run(ctx):
                       sim=[("F1", 4, 0, 250, 18), ("S1", 3, 0, 150, 18), ("S2", 3, 0, 100, 18), ("S3", 3, 0, 150, 18), ("F2", 4, 3, 150, 16)], leak=("F1", 40))
         run_fanout(ctx, bfs=[("A", 4, 2)], emit=[], sim=[("A", 10, 3, 150, 18), ("D", 10, 3, 150, 18)])
         run_republish(ctx)
+        run_cleanup(ctx)
     else:
         run_lifecycle(ctx, bfs=[("F1", 3, 0), ("S1", 3, 0), ("S2", 3, 0), ("S3", 3, 0)], emit=[("F1", 1, 0), ("S0", 2, 0)],
                       sim=[("F1", 6, 0, 3000, 26), ("S1", 5, 0, 1500, 24), ("S2", 5, 0, 1000, 24), ("S3", 5, 0, 1500, 24), ("F2", 5, 4, 1500, 22)], leak=("F1", 200))
         run_fanout(ctx, bfs=[("A", 5, 2), ("D", 4, 2)], emit=[("A", 3, 2)],
                    sim=[("A", 12, 3, 1500, 24), ("D", 12, 3, 1500, 26)])
         run_republish(ctx)
+        # the HLS output of a later publisher of the same name survives the delayed cleanup its predecessor armed (spec/HlsCleanup.tla)
+        run_cleanup(ctx)
